@@ -100,6 +100,12 @@ reg("C07",
     "The generator defines 'conforming' (content model encoded in vf/gen/conforming.py; doctype always present); trees that html5lib does not parse back from our explicit writer are excluded and counted. 6 recorded findings, 2 repaired defects.",
     "DESIGN.md §3 C07")
 
+reg("C17",
+    "property-based testing against an independent whitespace-collapse model + idempotence law, over etree and dom walker streams of whitespace-rich generated markup",
+    "Exploration: streams from trees with all five ASCII whitespace characters, non-ASCII spaces, character references to whitespace and nested preserve elements; text is compared group-wise (maximal runs of text tokens) with the model: collapsed outside pre/textarea/raw-text elements, identical inside, non-text tokens identical, F(F(x)) == F(x). Held on everything explored.",
+    "Text inside noscript/title/plaintext/listing and foreign namesakes is not judged. Known finding: per-token collapsing leaves one space per token when a run is split across tokens (modelled exactly).",
+    "DESIGN.md §3 C17")
+
 NOT_APPLICABLE = {}
 
 
